@@ -304,92 +304,97 @@ func c17Run(c *engine.Ctx) {
 	if !quick {
 		sizes = append(sizes, 70000)
 	}
-	c.Sub("json")
-	idx := 0
-	for _, kind := range []string{"numbers", "objects", "longlines", "tabs"} {
-		for _, nl := range []string{"\n", "\r\n", "\r"} {
-			for _, size := range sizes {
-				for _, pre := range []int{0, 1, 2, 3} {
-					idx++
-					if c.Expired() || quick && size >= 40000 && pre >= 2 {
-						continue
-					}
-					// preceding valid documents whose total size moves the window reset around
-					var prefix strings.Builder
-					for k := 0; k < pre; k++ {
-						prefix.WriteString(c17Doc("numbers", []int{3000, 9000, 14000}[k%3], nl))
-						prefix.WriteString(nl)
-					}
-					doc := c17Doc(kind, size, nl)
-					positions := c17Positions(len(doc), len(doc) <= 4200 && pre == 0 || len(doc) <= 600)
-					for pi, p := range positions {
-						if !c.MineIdx(idx*1000 + pi/16) {
+	// the large documents last: they are the open-ended part, and a thorough run under its wall-clock guard must still
+	// cover everything a quick run covers
+	largeDocuments := func() {
+		c.Sub("json")
+		idx := 0
+		for _, kind := range []string{"numbers", "objects", "longlines", "tabs"} {
+			for _, nl := range []string{"\n", "\r\n", "\r"} {
+				for _, size := range sizes {
+					for _, pre := range []int{0, 1, 2, 3} {
+						idx++
+						if c.Expired() || quick && size >= 40000 && pre >= 2 {
 							continue
 						}
-						for _, repl := range []byte{'?', 0xff} {
-							if repl == 0xff && (p%7 != 0) {
+						// preceding valid documents whose total size moves the window reset around
+						var prefix strings.Builder
+						for k := 0; k < pre; k++ {
+							prefix.WriteString(c17Doc("numbers", []int{3000, 9000, 14000}[k%3], nl))
+							prefix.WriteString(nl)
+						}
+						doc := c17Doc(kind, size, nl)
+						positions := c17Positions(len(doc), len(doc) <= 4200 && pre == 0 || len(doc) <= 600)
+						for pi, p := range positions {
+							if !c.MineIdx(idx*1000 + pi/16) {
 								continue
 							}
-							b := []byte(doc)
-							b[p] = repl
-							text := prefix.String() + string(b)
-							want := c17FirstError(text)
-							for ti, tr := range c17Transports {
-								if quick && ti > 3 && (p+ti)%3 != 0 {
+							for _, repl := range []byte{'?', 0xff} {
+								if repl == 0xff && (p%7 != 0) {
 									continue
 								}
-								if quick && len(text) > 20000 && (tr.chunk == 1 || tr.chunk == 7) && p%3 != 0 {
-									continue
-								}
-								key := fmt.Sprintf("%s nl=%q size=%d pre=%d p=%d repl=%q %s", kind, nl, size, pre, p, repl, tr.name)
-								if !c.Guard(key) {
-									continue
-								}
-								c.Eval()
-								r := c17RunInput([]string{"-c", "."}, text, tr, dir, c.Shard)
-								c.Unguard()
-								var msg string
-								switch {
-								case r.Panic != "":
-									msg = "panic: " + r.Panic
-								case want < 0:
-									if r.Status != 0 {
-										msg = "a well-formed stream is rejected: " + head(r.Stderr, 200)
+								b := []byte(doc)
+								b[p] = repl
+								text := prefix.String() + string(b)
+								want := c17FirstError(text)
+								for ti, tr := range c17Transports {
+									if quick && ti > 3 && (p+ti)%3 != 0 {
+										continue
 									}
-								case r.Status != 5:
-									msg = fmt.Sprintf("status %d for a malformed stream", r.Status)
-								default:
-									msg = c17CheckReport(text, want, r.Stderr)
-								}
-								if msg != "" {
-									c.Violation(key, "json-position", map[string]any{"kind": kind, "nl": nl, "size": size, "pre": pre, "p": p, "repl": int(repl), "transport": ti, "why": msg, "stderr": head(r.Stderr, 300)})
-								}
-								// the same stream read token by token (--stream): the same offending byte
-								if want >= 0 && (ti < 2 || !quick) && (p%8 == 0 || !quick) {
+									if quick && len(text) > 20000 && (tr.chunk == 1 || tr.chunk == 7) && p%3 != 0 {
+										continue
+									}
+									key := fmt.Sprintf("%s nl=%q size=%d pre=%d p=%d repl=%q %s", kind, nl, size, pre, p, repl, tr.name)
+									if !c.Guard(key) {
+										continue
+									}
 									c.Eval()
-									rs := c17RunInput([]string{"--stream", "-c", "."}, text, tr, dir, c.Shard)
-									smsg := ""
+									r := c17RunInput([]string{"-c", "."}, text, tr, dir, c.Shard)
+									c.Unguard()
+									var msg string
 									switch {
-									case rs.Panic != "":
-										smsg = "panic: " + rs.Panic
-									case rs.Status != 5:
-										smsg = fmt.Sprintf("status %d for a malformed stream", rs.Status)
+									case r.Panic != "":
+										msg = "panic: " + r.Panic
+									case want < 0:
+										if r.Status != 0 {
+											msg = "a well-formed stream is rejected: " + head(r.Stderr, 200)
+										}
+									case r.Status != 5:
+										msg = fmt.Sprintf("status %d for a malformed stream", r.Status)
 									default:
-										smsg = c17CheckReport(text, want, rs.Stderr)
+										msg = c17CheckReport(text, want, r.Stderr)
 									}
-									if smsg != "" {
-										c.Violation(key+" --stream", "json-position", map[string]any{"kind": kind, "nl": nl, "size": size, "pre": pre, "p": p, "repl": int(repl), "transport": ti, "stream": true, "why": smsg, "stderr": head(rs.Stderr, 300)})
+									if msg != "" {
+										c.Violation(key, "json-position", map[string]any{"kind": kind, "nl": nl, "size": size, "pre": pre, "p": p, "repl": int(repl), "transport": ti, "why": msg, "stderr": head(r.Stderr, 300)})
+									}
+									// the same stream read token by token (--stream): the same offending byte
+									if want >= 0 && (ti < 2 || !quick) && (p%8 == 0 || !quick) {
+										c.Eval()
+										rs := c17RunInput([]string{"--stream", "-c", "."}, text, tr, dir, c.Shard)
+										smsg := ""
+										switch {
+										case rs.Panic != "":
+											smsg = "panic: " + rs.Panic
+										case rs.Status != 5:
+											smsg = fmt.Sprintf("status %d for a malformed stream", rs.Status)
+										default:
+											smsg = c17CheckReport(text, want, rs.Stderr)
+										}
+										if smsg != "" {
+											c.Violation(key+" --stream", "json-position", map[string]any{"kind": kind, "nl": nl, "size": size, "pre": pre, "p": p, "repl": int(repl), "transport": ti, "stream": true, "why": smsg, "stderr": head(rs.Stderr, 300)})
+										}
 									}
 								}
+								c.DistinctN(1)
 							}
-							c.DistinctN(1)
 						}
 					}
 				}
 			}
 		}
+		c.Sample(map[string]any{"document": "objects, 16384 bytes, CRLF, after 2 valid documents", "corruption": "one byte replaced by ? at every byte near each multiple of 512/4096/16384 and at both ends", "transports": "regular file; pipe delivered whole and in chunks of 1, 7, 512, 4096, 16384, 16385"})
+
 	}
-	c.Sample(map[string]any{"document": "objects, 16384 bytes, CRLF, after 2 valid documents", "corruption": "one byte replaced by ? at every byte near each multiple of 512/4096/16384 and at both ends", "transports": "regular file; pipe delivered whole and in chunks of 1, 7, 512, 4096, 16384, 16385"})
 
 	// small documents, every byte: all documents of a small grammar (1..4 members of every scalar kind, three layouts),
 	// one byte replaced by each of 5 bytes at EVERY position, read as values and token by token (--stream), from a file
@@ -482,7 +487,7 @@ func c17Run(c *engine.Ctx) {
 
 	// truncation and deletions; other modes
 	c.Sub("json-modes")
-	idx = 0
+	idx := 0
 	for _, nl := range []string{"\n", "\r\n", "\r"} {
 		for _, size := range []int{300, 5000, 17000, 34000} {
 			idx++
@@ -658,6 +663,7 @@ func c17Run(c *engine.Ctx) {
 
 	c.Sub("query")
 	c17Queries(c)
+	largeDocuments()
 }
 
 // ---- query errors ----
